@@ -20,7 +20,8 @@ R("e89c8b29b6", "internal", "the arm is entered only when network() has the ::ff
 R("b7c00e393d", "config", "network + offset with offset < 2^(32-prefixlen): stays inside the configured subnet", props=C05)
 R("23d3481b86", "config", "dest[0] of a forward route: the server list comes from the configuration", props=C05)
 R("886401a65b", "config", "RA option length octet: length of a configured option value", props=C05)
-R("1ff92d722b", "internal", "RA DNSSL length octet: names are appended only while the list stays within 254 * 8 octets, so after padding len / 8 <= 254")
+R("1ff92d722b", "internal", "RA DNSSL length octet: names are appended only while the list stays within 254 * 8 octets, so after padding len / 8 <= 254",
+  requires=("C17.R10",))
 R("88f12b364c", "config", "IPv4 total length: 20 + size of the DHCP reply, whose size is fixed by the configured options and the fixed "
   "BOOTP header, not by the request", props=C05)
 R("3b271e10e0", "config", "UDP length: 8 + size of the DHCP reply (see new_ipv4)", props=C05)
@@ -39,7 +40,6 @@ for h, n, why in (
     ("8d4b2be7e6", 1, "system clock earlier than 1970"),
     ("222b0f2f65", 1, "now - 10 with now = seconds since 1970"),
     ("58c915c69b", 1, "bucket level (seconds since 1970, at most the cost of one datagram ahead) + cost/TOKENS_PER_SECOND in u32: year 2106"),
-    ("7a73a6680c", 1, "seconds since 1970 + a lease duration already clamped to the policy maximum, in u64"),
     ("1889e1f7e4", 1, "Instant::now() + a random duration below a constant"),
     ("3bf427676e", 1, "operating-system RNG failure"),
     ("da700b9ab1", 1, "operating-system RNG failure"),
@@ -61,12 +61,16 @@ for h, n, why in (
     R(h, "env", why, count=n)
 
 # ------------------------------------------------------------------ clock arithmetic on bounded durations
+R("7a73a6680c", "config", "seconds since 1970 + a lease duration already clamped to the policy maximum, in u64: no packet chooses the maximum", props=("C05",))
+R("7a73a6680c", "internal", "seconds since 1970 + a lease duration clamped to Response.maxlease.unwrap_or(86400 s), which nothing sets beyond a constant",
+  props=("C19",), requires=("V5", "C10.R4"))
 R("8248e5f66d", "internal", "Instant + lifetime, lifetime <= u32::MAX seconds (folded from 32-bit record TTLs or the constant 8 s)", requires=("C06.R3",))
 R("a626129d44", "internal", "Instant + lifetime, lifetime <= u32::MAX seconds", requires=("C06.R3",))
 R("72e0fc64e3", "internal", "(birth + lifetime) - now on the edge where expiry() >= now", requires=("C06.R2",))
 R("2e61caff4b", "internal", "now - birth: birth is an earlier reading of the same monotonic clock")
 R("f954ce034e", "internal", "Duration * small constant: dur is a measured round trip below the timeout (<= MAX_DNS_TIMEOUT)")
-R("f824cf3ae7", "internal", "Duration * small constant: the shared timeout is clamped to [MIN_DNS_TIMEOUT, MAX_DNS_TIMEOUT] on every store")
+R("f824cf3ae7", "internal", "Duration * small constant: the shared timeout is clamped to [MIN_DNS_TIMEOUT, MAX_DNS_TIMEOUT] on every store",
+  requires=("C07.R10",))
 R("c551b98544", "internal", "sum of the two bounded products above")
 R("90454f67e9", "internal", "Duration * small constant: dur is a measured round trip")
 R("c72bdfceac", "internal", "timeout/2 + jitter < timeout; the retry loop ends after a fixed number of rounds so the timeout stays far below Duration::MAX")
@@ -163,3 +167,12 @@ R("23d3481b86", "internal", "dest[0] of a forward route: the loader builds a for
 R("886401a65b", "env", "RA source link-layer address option: the address comes from the kernel's link table (6 octets for Ethernet)", props=C19)
 R("88f12b364c", "internal", "IPv4 total length: the DHCP reply is framed only when it has at most 65507 octets", props=C19, requires=("V4",))
 R("3b271e10e0", "internal", "UDP length: the DHCP reply is framed only when it has at most 65507 octets", props=C19, requires=("V4",))
+
+# ================================================================== C20: what the HTTP responders reach
+C20 = ("C20",)
+R("76515f4591", "internal", "Response::builder() with a literal status and a literal, valid header name and value: body() cannot fail", props=C20)
+R("d611d5f1a7", "internal", "Response::builder() with a literal status and a literal, valid header name and value: body() cannot fail", props=C20)
+R("5844c50d15", "internal", "`.or_else(|| Some(..)).unwrap()`: the closure always yields Some", props=C20)
+R("a62504f0c5", "env", "TextEncoder::encode into a Vec fails only for a metric family without samples or with an invalid name; the families "
+  "are the crate's own constant registrations", props=C20)
+R("08eac32c12", "internal", "offset + count: offset <= len(buffer) (cursor invariant), count <= 255 (an option length octet)", props=C20, requires=("C05.inv",))
